@@ -29,11 +29,18 @@ at least two bins).
   (d) `step2_safe` (five sweeps), (e) `levelStep_safe`, `ptFld_safe`: no out-of-range access, every `for(;;)`
   terminates within its fuel, the queue is empty between phases.
 * `table_ok`: the table built by `ptnghb` satisfies `NbOK` for every grid; `ptsort_safe`: the executable counting
-  sort makes no out-of-range access and returns a listing of the pixels (`IndOK`), for every level map in range.
+  sort makes no out-of-range access and returns a listing of the pixels (`IndOK`), for every level map in range;
+  `ptsort_eq_spec`, `partition_ind_sorted`: it returns exactly `ptsortSpec` (sorted by level, stable).
 * **`partition_memory_safe : G1Statement`** and **`partition_terminates : G2Statement`**: for every grid
   `nk, nth ≥ 1`, every `ihmax ≥ 1`, every integer spectrum of `nk·nth` values, every filling of the uninitialised
   queue buffer and with or without ghost trace, `partition` (copy-in, range, constant branch, levels, `ptsort`,
   `pt_fld`, copy-out) never raises the out-of-bounds flag and never reports fuel exhaustion.
+
+* towards (G3): `valid_trace_labels` (on any valid trace the abstract `lab`/`K`/`snap` are the label effect `effRun` of
+  the trace), `ptFld_trace_labels` (the label effect of the trace emitted by `pt_fld` is the concrete `imo`, the last
+  seed number is `npart` — for all inputs), `ptFld_valid_trace_labels`, `partition_trace_labels`,
+  `partition_valid_trace_labels` (hence validity alone implies that the abstract labels are the returned label map:
+  the `labelsOk` half of `SP.verdict` needs no per-input check once the trace is valid).
 
 **Stated, not proved**: `G3Statement` (the emitted ghost trace is always `Valid`), see its doc comment.
 -/
@@ -171,12 +178,31 @@ theorem ptsort_safe {ihmax n : Nat} {imi : Array Int} (hi : 1 ≤ ihmax) (hs : i
     (hl : ∀ i, i < n → 0 ≤ imi[i]! ∧ imi[i]! < ihmax) :
     let r := ptsort ihmax n imi false
     r.2 = false ∧ IndOK n r.1 :=
-  (triple_iff _ _ _).mp (ptsort_spec hi hs hl) false rfl
+  have h := (triple_iff _ _ _).mp (ptsort_spec hi hs hl) false rfl
+  ⟨h.1, h.2.1⟩
 
 example : ∀ i, i < 2 → (0 : Int) ≤ (#[1, 0] : Array Int)[i]! ∧ (#[1, 0] : Array Int)[i]! < ((2 : Nat) : Int) := by
   intro i hi
   have : i = 0 ∨ i = 1 := by omega
   rcases this with rfl | rfl <;> decide
+
+/-- the executable `ptsort` computes its specification `ptsortSpec` (pixels level by level, increasing pixel index
+    inside a level; `C04.ptsort_perm`, `C04.ptsort_sorted` are about that list) — so far only compared per input
+    (`Verdict.indOk`) -/
+theorem ptsort_eq_spec {ihmax n : Nat} {imi : Array Int} (hi : 1 ≤ ihmax) (hs : imi.size = n)
+    (hl : ∀ i, i < n → 0 ≤ imi[i]! ∧ imi[i]! < ihmax) :
+    (ptsort ihmax n imi false).1.toList =
+      (ptsortSpec ihmax n (fun p => (imi[p]!).toNat)).map (fun (x : Nat) => (x : Int)) :=
+  ((triple_iff _ _ _).mp (ptsort_spec hi hs hl) false rfl).2.2
+
+/-- in every non-constant run of `partition` the sorted address table `ind` is the specification list for the
+    run's own level map — the first conjunct of `Verdict.indOk`, for all inputs -/
+theorem partition_ind_sorted (nk nth ihmax : Nat) (hk : 1 ≤ nk) (ht : 1 ≤ nth) (hi : 1 ≤ ihmax) (spec : Array Int)
+    (hs : spec.size = nk * nth) (iqFill : Int) (tr : Bool) :
+    let r := partition nk nth ihmax (table nk nth) spec iqFill tr
+    r.const = false →
+      r.ind.toList = (ptsortSpec ihmax (nk * nth) (fun p => (r.imi[p]!).toNat)).map (fun (x : Nat) => (x : Int)) :=
+  ((triple_iff _ _ _).mp (partitionM_spec nk nth ihmax spec iqFill tr hk ht hi hs) false rfl).2.2
 
 /-- **(G1)** `partition` never reads or writes outside its buffers. -/
 theorem partition_memory_safe : G1Statement := by
@@ -187,10 +213,82 @@ theorem partition_memory_safe : G1Statement := by
     (`n+1`, `4n+8`, `n+1`, `n+2` iterations). -/
 theorem partition_terminates : G2Statement := by
   intro nk nth ihmax hk ht hi spec hs iqFill tr
-  exact ((triple_iff _ _ _).mp (partitionM_spec nk nth ihmax spec iqFill tr hk ht hi hs) false rfl).2
+  exact ((triple_iff _ _ _).mp (partitionM_spec nk nth ihmax spec iqFill tr hk ht hi hs) false rfl).2.1
 
 example : (partition 2 2 3 (table 2 2) #[0, 5, 2, 5]).oob = false :=
   partition_memory_safe 2 2 3 (by decide) (by decide) (by decide) _ rfl 0 false
+
+/-! ## towards (G3): the ghost trace records every label write -/
+
+/-- On **every valid trace** (any graph, any trace) the abstract machine's `lab`, `K`, `snap` are the *label effect*
+    of the trace (`effRun`: the updates of `Flood.step` with the guards ignored). -/
+theorem valid_trace_labels {g : Flood.Graph} {t : List Flood.Step} {s : Flood.St} (h : Flood.run g t = some s) :
+    (s.lab, s.K, s.snap) = effRun g.n t :=
+  run_eff h
+
+/-- **The label effect of the trace emitted by `pt_fld` is the concrete label array**, for all inputs: `mark`,
+    `inherit`, `conflict`, `seed`, `flood`, `sweep`/`resolve` are emitted exactly at the writes of `imo` (`imd` in
+    step 2) with the written value, and the last `seed` number is `npart`. -/
+theorem ptFld_trace_labels {n : Nat} {nb imi ind zp : Array Int} (ihmax : Nat) (iqFill : Int)
+    (hnb : NbOK n nb) (hind : IndOK n ind) (hi : imi.size = n) (hz : zp.size = n) (hn : 2 ≤ n) :
+    let r := (ptFld n nb imi ind zp ihmax iqFill true false).1
+    (effRun n r.trace.toList).1 = r.imo.map labC ∧ (effRun n r.trace.toList).2.1 = r.npart.toNat ∧ 0 ≤ r.npart := by
+  have h := ((triple_iff _ _ _).mp (ptFld_specT ihmax iqFill hnb hind hi hz hn) false rfl).2.1
+  exact ⟨h.2.1, h.2.2, h.1⟩
+
+/-- Consequence: **if** the emitted trace is valid on a graph with `n` vertices (what (G3) asserts for the grid
+    graph), the abstract machine ends with exactly the concrete labels (`-1 ↦ init`, `-2 ↦ mask`, `0 ↦ wshed`,
+    `k ↦ basin k`) and `K = npart` — the `labelsOk` comparison of `SP.verdict`, for all inputs. -/
+theorem ptFld_valid_trace_labels {n : Nat} {nb imi ind zp : Array Int} (ihmax : Nat) (iqFill : Int)
+    (hnb : NbOK n nb) (hind : IndOK n ind) (hi : imi.size = n) (hz : zp.size = n) (hn : 2 ≤ n)
+    (g : Flood.Graph) (hg : g.n = n) (s : Flood.St)
+    (hv : Flood.run g (ptFld n nb imi ind zp ihmax iqFill true false).1.trace.toList = some s) :
+    let r := (ptFld n nb imi ind zp ihmax iqFill true false).1
+    (∀ p, p < n → s.labOf p = labC r.imo[p]!) ∧ (s.K : Int) = r.npart := by
+  intro r
+  have h := ptFld_trace_labels ihmax iqFill hnb hind hi hz hn
+  have he := valid_trace_labels hv
+  rw [hg] at he
+  have hsz := ((triple_iff _ _ _).mp (ptFld_specT ihmax iqFill hnb hind hi hz hn) false rfl).2.2
+  have hl : s.lab = r.imo.map labC := by rw [← h.1]; exact congrArg (·.1) he
+  have hk : s.K = r.npart.toNat := by rw [← h.2.1]; exact congrArg (·.2.1) he
+  have hnp : 0 ≤ r.npart := h.2.2
+  refine ⟨fun p hp => ?_, by rw [hk]; omega⟩
+  unfold Flood.St.labOf
+  rw [hl]
+  exact getD_map _ _ (by rw [hsz]; exact hp)
+
+/-- the same for `partition` as a whole and its returned (row-major) label map: for every input, the label effect of
+    the emitted trace at pixel `ifreq + nk·iang` is the label returned for bin `[ifreq][iang]` -/
+theorem partition_trace_labels (nk nth ihmax : Nat) (hk : 1 ≤ nk) (ht : 1 ≤ nth) (hi : 1 ≤ ihmax) (spec : Array Int)
+    (hs : spec.size = nk * nth) (iqFill : Int) :
+    let r := partition nk nth ihmax (table nk nth) spec iqFill true
+    r.const = false → ∀ f t, f < nk → t < nth →
+      (effRun (nk * nth) r.trace.toList).1.getD (f + nk * t) .init = labC r.labels[f * nth + t]! := by
+  intro r hc f t hf ht'
+  obtain ⟨imoF, hsz, he, hl⟩ :=
+    ((triple_iff _ _ _).mp (partitionM_specT nk nth ihmax spec iqFill hk ht hi hs) false rfl).2 hc
+  show (effRun (nk * nth) (partitionM nk nth ihmax (table nk nth) spec iqFill true false).1.trace.toList).1.getD _ _ = _
+  rw [he, getD_map _ _ (by rw [hsz]; exact NeighL.lin_lt hf ht'), ← hl f t hf ht']
+  rfl
+
+/-- hence: **whenever the trace emitted by `partition` is valid** on a graph with `nk·nth` vertices, the abstract
+    machine's final label of pixel `ifreq + nk·iang` is the returned label of bin `[ifreq][iang]` — the `labelsOk`
+    comparison of `SP.verdict` holds for all inputs as soon as the trace is valid (all returned labels being `≥ 0`). -/
+theorem partition_valid_trace_labels (nk nth ihmax : Nat) (hk : 1 ≤ nk) (ht : 1 ≤ nth) (hi : 1 ≤ ihmax)
+    (spec : Array Int) (hs : spec.size = nk * nth) (iqFill : Int) (g : Flood.Graph) (hg : g.n = nk * nth) (s : Flood.St) :
+    let r := partition nk nth ihmax (table nk nth) spec iqFill true
+    r.const = false → Flood.run g r.trace.toList = some s →
+      ∀ f t, f < nk → t < nth → s.labOf (f + nk * t) = labC r.labels[f * nth + t]! := by
+  intro r hc hv f t hf ht'
+  have he := valid_trace_labels hv
+  rw [hg] at he
+  have hl : s.lab = (effRun (nk * nth) r.trace.toList).1 := congrArg (·.1) he
+  unfold Flood.St.labOf
+  rw [hl]
+  exact partition_trace_labels nk nth ihmax hk ht hi spec hs iqFill hc f t hf ht'
+
+example : Flood.run ⟨0, fun _ => [], fun _ => 0⟩ [] = some (Flood.St.init 0) := rfl
 
 /-! ### the hypotheses are satisfiable -/
 
